@@ -155,6 +155,28 @@ Theorem c10_chunk_is_restriction : forall v p wt lobe partial retain u chunks ch
 Proof. exact chunk_is_restriction. Qed.
 Print Assumptions c10_chunk_is_restriction.
 
+(* with or without --pad-mode (constant): a chunk has the length of its window, equals the source inside the utterance
+   and the pad value outside (padding itself is property C09's subject) *)
+Theorem c10_chunk_padded_restriction : forall v p wt pad lobe partial retain u chunks ch,
+  chunk_utt v p wt pad lobe partial retain u = Some chunks -> In ch chunks ->
+  let a := fst (c_win ch) in
+  let c := pad_c pad in
+  length (c_feat ch) = Z.to_nat (Z.max (snd (c_win ch) - a) 0)
+  /\ (forall i, (i < length (c_feat ch))%nat ->
+        nth i (c_feat ch) c = if (0 <=? a + Z.of_nat i) && (a + Z.of_nat i <? zlen (u_feat u))
+                              then nth (Z.to_nat (a + Z.of_nat i)) (u_feat u) c else c)
+  /\ match u_ali u, c_ali ch with
+     | Some al, Some cal =>
+         length cal = length (c_feat ch)
+         /\ forall i, (i < length cal)%nat ->
+              nth i cal c = if (0 <=? a + Z.of_nat i) && (a + Z.of_nat i <? zlen al)
+                            then nth (Z.to_nat (a + Z.of_nat i)) al c else c
+     | None, None => True
+     | _, _ => False
+     end.
+Proof. exact chunk_padded_restriction. Qed.
+Print Assumptions c10_chunk_padded_restriction.
+
 (* any policy, window type, lobe, with or without --pad-mode; default token options *)
 Theorem c10_chunked_dir_wellformed : forall v p wt pad lobe u chunks ch,
   k1 v = false ->
